@@ -69,6 +69,9 @@ ContLen(body, i) == IF i <= Len(body) /\ body[i].lex = "gt" THEN 1 + ContLen(bod
 CmdIdx(body) == LET S == {x \in 1..Len(body) : body[x].lex = "dollar"} IN
                 IF S = {} THEN 0 ELSE CHOOSE x \in S : \A y \in S : x <= y
 HasCmd(body)  == CmdIdx(body) > 0
+\* an inline configuration whose value cannot be read (not a duration): the document has to be rejected, the written
+\* configuration must not be dropped silently
+BadCfg == "{timeout: 3 ticks}"
 HasPre(body)  == CmdIdx(body) > 1
 CmdLines(body) == [x \in 1..(1 + ContLen(body, CmdIdx(body) + 1)) |-> body[CmdIdx(body) - 1 + x].arg]
 RestOf(body)  == SubSeq(body, CmdIdx(body) + 1 + ContLen(body, CmdIdx(body) + 1), Len(body))
@@ -101,8 +104,8 @@ RefStep(st, s, isFirst, isLast, laterTest) ==
       [] s.k = "scrut" ->
             IF HasCmd(s.lines)
             THEN [st EXCEPT !.ln = @ + len, !.run = <<>>, !.fresh = FALSE, !.title = <<>>,
-                            !.may_err = @ \/ Len(Codes(s.lines)) > 1 \/ ~s.term \/ HasPre(s.lines),
-                            !.must_err = @ \/ Len(Codes(s.lines)) > 1,
+                            !.may_err = @ \/ Len(Codes(s.lines)) > 1 \/ ~s.term \/ HasPre(s.lines) \/ s.cfg = BadCfg,
+                            !.must_err = @ \/ Len(Codes(s.lines)) > 1 \/ s.cfg = BadCfg,
                             !.tests = Append(@, Test(CmdLines(s.lines), ExpLines(s.lines),
                                                      IF Len(Codes(s.lines)) = 1 THEN Codes(s.lines)[1].arg ELSE "",
                                                      s.cfg, st.ln + 1 + Len(s.com) + CmdIdx(s.lines),
@@ -175,7 +178,7 @@ EndTest ==
        THEN /\ tests' = Append(tests, Test(CmdLines(cur), ExpLines(cur),
                                         IF Len(Codes(cur)) = 1 THEN Codes(cur)[1].arg ELSE "", curcfg, startln + CmdIdx(cur) - 1,
                                         [run |-> title, fresh |-> fresh]))
-            /\ err' = (err \/ Len(Codes(cur)) > 1)
+            /\ err' = (err \/ Len(Codes(cur)) > 1 \/ curcfg = BadCfg)
             /\ run' = <<>> /\ title' = <<>> /\ fresh' = FALSE
        ELSE /\ err' = (err \/ Len(cur) > 0)
             /\ UNCHANGED <<tests, run, title, fresh>>
@@ -219,7 +222,7 @@ VerbSegs   == {Verbatim(3, "bash", b, t) : b \in {<<>>, <<Plain("echo")>>, <<Cmd
 ScrutSegs  == {Scrut(n, "", <<>>, b, TRUE) : n \in {3, 4}, b \in Bodies}
               \cup {Scrut(3, cfg, com, <<Cmd("c1"), Plain("out1")>>, t) :
                         \* (an inline configuration is kept as written, including blanks inside quoted values)
-                        cfg \in {"", "{timeout: 3s}", "{environment: {A: \"x  y\"}}"}, com \in {<<>>, <<Hash("a comment")>>}, t \in BOOLEAN}
+                        cfg \in {"", "{timeout: 3s}", "{environment: {A: \"x  y\"}}", BadCfg}, com \in {<<>>, <<Hash("a comment")>>}, t \in BOOLEAN}
               \cup {Scrut(4, "", <<>>, <<Cmd("c1"), Fence(3), Plain("inner"), Fence(3)>>, TRUE),
                     \* an expectation that starts with a fence followed by text, and no bare fence of that length
                     Scrut(4, "", <<>>, <<Cmd("c1"), Open(3, "js", ""), Plain("inner")>>, TRUE),
